@@ -31,3 +31,27 @@ Theorem C09_src_fft_out_shape_scratch_is_model : forall (shape : Z * Z) (os : Z)
   end.
 Proof. exact src_fft_out_shape_scratch_ok. Qed.
 Print Assumptions C09_src_fft_out_shape_scratch_is_model.
+
+(* /repo 1b12b57: before the Field is stored the transformed grid is cropped, lentil.pad(field, shape_out): the shape
+   handed to that call is the [out_shape] the model gives the Wavefront (times oversample: the stored Field and
+   Wavefront.shape agree), and the whole grid when shape is None *)
+Theorem C09_src_fft_crop_shape_is_model : forall (shape : Z * Z) (os : Z) (tilt : bool) (N : Z * Z),
+  src_fft_crop_shape shape os tilt N =
+  if tilt then Err NotImplementedErr else out_shape (fst N) (snd N) (Some shape) os.
+Proof. exact src_fft_crop_shape_stmt. Qed.
+Print Assumptions C09_src_fft_crop_shape_is_model.
+
+Theorem C09_src_fft_crop_shape_default_is_model : forall (os : Z) (tilt : bool) (N : Z * Z),
+  src_fft_crop_shape_default os tilt N = if tilt then Err NotImplementedErr else Ok N.
+Proof. exact src_fft_crop_shape_default_stmt. Qed.
+Print Assumptions C09_src_fft_crop_shape_default_is_model.
+
+Theorem C09_src_fft_crop_shape_scratch_is_model : forall (shape : Z * Z) (os : Z) (scr : Z * Z) (tilt : bool) (N : Z * Z),
+  src_fft_crop_shape_scratch shape os scr tilt N =
+  if tilt then Err NotImplementedErr else
+  match out_shape (fst N) (snd N) (Some shape) os with
+  | Err e => Err e
+  | Ok so => if negb ((fst N <=? fst scr) && (snd N <=? snd scr)) then Err ValueError else Ok so
+  end.
+Proof. exact src_fft_crop_shape_scratch_stmt. Qed.
+Print Assumptions C09_src_fft_crop_shape_scratch_is_model.
